@@ -23,6 +23,7 @@ def run(ctx):
     r1_r2_r5(ctx)
     r3(ctx)
     r4(ctx)
+    tls_wrap_contained(ctx, "C05.R5")
 
 
 def _handler_types(repo, f, h):
@@ -261,6 +262,57 @@ def error_reply_callers(ctx, rid):
             why = "the error reply is not guarded by `headers_sent` having been found false" if lit else "status / reason of the error reply are not literals"
         ctx.check(rid, okk, key(ff, "error-reply-site|" + norm(c)[:40]), site(ff, c),
                   "%s writes an error reply (`%s`): %s -- a second response can land behind a response head that is already on the wire" % (ff.short, norm(c)[:60], why), "error reply only before any response byte")
+
+
+def tls_wrap_contained(ctx, rid):
+    """Wrapping an accepted socket for TLS talks to the peer (CPython's wrap_socket calls getpeername() and recv(1) since the
+    CVE-2023-40217 hardening; with do_handshake_on_connect it runs the handshake): a client that connects and resets, or sends
+    garbage, makes it raise ConnectionResetError / SSLError. That must cost this connection only: every call of
+    ssl_wrap_socket in a worker sits, along its whole call chain inside the worker, under a clause that catches OSError --
+    not in the accept loop / main loop, where the exception ends the worker (gthread) or the accept greenlet (eventlet: the
+    process lives on, beats, and never serves again)."""
+    repo = ctx.repo
+    n = 0
+
+    def chain_ok(fn, call, depth=0, seen=()):
+        if _landing(repo, fn, call, "ConnectionResetError", follow_reraise=True) is not None:
+            return True, None
+        if depth > 3 or fn.qualname in seen:
+            return False, fn
+        callers = []
+        for mq in (fn.module.name,):
+            for g_ in repo.module(mq).all_funcs:
+                if g_ is fn:
+                    continue
+                for c2 in walk_own(g_.node):
+                    if isinstance(c2, ast.Call) and ((isinstance(c2.func, ast.Attribute) and c2.func.attr == fn.name and not (isinstance(c2.func.value, ast.Call) and tail(c2.func.value.func) == "super")) or
+                                                     (isinstance(c2.func, ast.Name) and c2.func.id == fn.name)):
+                        callers.append((g_, c2))
+        if not callers:
+            return False, fn          # entered from outside (a callback of the event loop): nothing above catches
+        for g_, c2 in callers:
+            ok_, where = chain_ok(g_, c2, depth + 1, seen + (fn.qualname,))
+            if not ok_:
+                return False, where
+        return True, None
+    for mn in ("gunicorn.workers.gthread", "gunicorn.workers.geventlet", "gunicorn.workers.ggevent", "gunicorn.workers.sync", "gunicorn.workers.base_async"):
+        if not repo.has_module(mn) if hasattr(repo, "has_module") else False:
+            continue
+        try:
+            mod = repo.module(mn)
+        except Exception:
+            continue
+        for fn in mod.all_funcs:
+            for c, q in repo.calls_in(fn):
+                if q and q.endswith("sock.ssl_wrap_socket"):
+                    n += 1
+                    ctx.fn(fn)
+                    ok_, where = chain_ok(fn, c)
+                    ctx.check(rid, ok_, key(fn, "tls-wrap-contained"), site(fn, c),
+                              "`%s` can raise (a client that connects and resets: ConnectionResetError from wrap_socket's getpeername()/recv(1) probe; garbage on a TLS port with do_handshake_on_connect) and "
+                              "along the call chain up to %s no clause catches OSError: the exception reaches the worker's main / accept loop -- one SYN+RST kills the worker (gthread) or silently ends "
+                              "its accept loop for good (eventlet)" % (norm(c)[:50], where.short if where is not None else "?"), "wrapped inside the connection's own error handling")
+    ctx.floor(rid, "ssl_wrap_socket call sites in the workers", n, 2)
 
 
 def accept_errors(ctx, rid):
